@@ -366,7 +366,8 @@ class X86_64Arch(Architecture):
                         int_regs.pop(0)
                 else:
                     # We need stack location!
-                    arg_size = self.info.get_size(arg_type)
+                    # Every scalar takes an 8 byte stack slot, floats too
+                    arg_size = 8
                     reg = StackLocation(offset, arg_size)
                     offset += arg_size
             elif isinstance(arg_type, ir.BlobDataTyp):
